@@ -68,3 +68,17 @@ func verifCanary(label string, cond bool) {}
 //@   ensures [C06:send-fits-peer] err == nil ==> c.ack.SendBufSize <= peerRecv
 //@   ensures [C06:receive-covers-peer] err == nil ==> c.ack.ReceiveBufSize >= peerSend || c.ack.ReceiveBufSize >= ownRecv
 //@   ensures [C06:config-untouched] c.ack != old(c.ack) ==> fresh(c.ack)
+
+// The server side of the handshake: the Hello of the client as it is on the wire (ghost stream): bytes
+// 12..16 its receive buffer size, 16..20 its send buffer size. (A reverse hello replaces the TCP
+// connection; the Hello branch is the one that keeps it.)
+//@ func (*Conn).srvhandshake
+//@   props C06
+//@   bytes
+//@   requires connInv(c) && c.TCPConn != nil && allocated(c.TCPConn)
+//@   let pos = io.streamPos(c)
+//@   let helloRecv = uint32(io.streamAt(ref(c), pos+12)) | uint32(io.streamAt(ref(c), pos+13))<<8 | uint32(io.streamAt(ref(c), pos+14))<<16 | uint32(io.streamAt(ref(c), pos+15))<<24
+//@   assigns *
+//@   after "c.Close()" assigns nothing
+//@   ensures [C06:limits-kept] c.ack == old(c.ack) && connInv(c)
+//@   ensures [C06:server-send-fits-client] result == nil && c.TCPConn == old(c.TCPConn) ==> c.ack.SendBufSize <= helloRecv
